@@ -447,12 +447,12 @@ def make_sweep_plan(seed, idx):
     text = texts[k % len(texts)]
     version = corpus.VERSIONS[(k // len(texts) + k) % len(corpus.VERSIONS)]
     op = {'k': kind, 'v': version, 'text': text}
-    nthreads = 2 + idx % 2
+    nthreads = 3 + idx % 3
     threads = [[dict(op)] for _ in range(nthreads)]
     if rng.random() < 0.5:
         threads[-1].append({'k': rng.choice(SWEEP_KINDS[:6]), 'v': version, 'text': rng.choice(texts)})
     cfg = {'quantum': rng.choice([10, 30, 100]), 'warm': [], 'first': rng.randrange(nthreads), 'sequential': False,
-           'perm': None, 'rounds': 1, 'pgen_atomic': idx % 4 < 2, 'burst': 8000, 'sweep': [kind, k % len(texts), version]}
+           'perm': None, 'rounds': 1, 'pgen_atomic': idx % 4 < 2, 'burst': 8000, 'attempts': 4, 'sweep': [kind, k % len(texts), version]}
     return {'sim': 'threadsim', 'seed': seed, 'config': cfg, 'threads': threads, 'switches': [], 'more': []}
 
 
@@ -510,9 +510,9 @@ def make_plan(seed, tier='quick'):
 # ---------------------------------------------------------------------------
 # one run + oracle
 # ---------------------------------------------------------------------------
-def evaluate(plan, generate, seed):
+def evaluate(plan, generate, seed, reference=None):
     """Fork R and C, compare.  Returns dict(violation|None, digest, stats...)."""
-    r = _in_child(child_reference, plan)
+    r = reference if reference is not None else _in_child(child_reference, plan)
     c = _in_child(child_concurrent, plan, generate, seed)
     if r[0] != 'ok' or c[0] != 'ok':
         return {'violation': None, 'harness_error': 'child failed: %s / %s' % (r[1] if r[0] != 'ok' else '',
@@ -577,8 +577,27 @@ def _short(o):
 
 def run_seed(seed, tier):
     plan = make_plan(seed, tier)
-    res = evaluate(plan, True, seed)
-    return plan, res
+    attempts = plan['config'].get('attempts', 1)
+    if attempts <= 1:
+        return plan, evaluate(plan, True, seed)
+    # A first-use race can happen only once per process: the same calls get several schedules, each
+    # in its own fresh child; the sequential reference is computed once.  Every attempt is a plan of
+    # its own (its recorded switch list makes it replayable alone).
+    import copy
+    ref = _in_child(child_reference, plan)
+    total = None
+    for a in range(attempts):
+        p = copy.deepcopy(plan)
+        p['config']['attempt'] = a
+        res = evaluate(p, True, seed * 131 + a, reference=ref)
+        if total is not None and not res['harness_error']:
+            for k in ('steps', 'switches', 'nontrivial_switches'):
+                res[k] = res.get(k, 0) + total.get(k, 0)
+            res['nontrivial'] = res['nontrivial'] or total['nontrivial']
+        if res['violation'] is not None or res['harness_error']:
+            return p, res
+        total = res
+    return p, res
 
 
 def replay_plan(plan):
